@@ -174,7 +174,38 @@ def check_a(ck, repo):
             k = [i for i, s in enumerate(sib) if s is loops[0]][0]
             after = [src_of(s) for s in sib[k + 1 : k + 3]]
             okc = after[:1] == ["self.sample_f[idx] = 1.0"] and src_of(loops[0].body[0]) == "self.sample_f[idx] = X[ks, c]"
-        ck.verdict(okc, "C09.a", None, "self.sample_f[idx] = 1.0 after the feature loop", "Cython criterion stores the constant feature last, like numpy.hstack([X, ones])", "the Cython criterion no longer writes the constant feature after the n_features columns: betas_ and _predict_reglin disagree on the intercept position", file=LINEAR, function="LinearRegressorCriterion.init_with_X", line=getattr(iw, "lineno", 0))
+        if not okc:
+            # other spellings of the same layout: a loop over the rows writing 1 at r * nbvar - 1
+            # (r = 1..n_samples) or at r * nbvar + nbvar - 1 (r = 0..n_samples-1), in any method
+            ones = []
+            kcls = lm.cls("LinearRegressorCriterion")
+            for mname_, fn_ in kcls.methods.items():
+                for st_ in ast.walk(fn_):
+                    if isinstance(st_, ast.Assign) and isinstance(st_.targets[0], ast.Subscript) and src_of(st_.targets[0].value) == "self.sample_f" and isinstance(st_.value, ast.Constant) and st_.value.value in (1, 1.0):
+                        ones.append((mname_, st_))
+            verdict_ = None
+            for mname_, st_ in ones:
+                e_ = ctext(src_of(st_.targets[0].slice))
+                loop_ = next((p_ for p_ in _parents(st_) if isinstance(p_, ast.For) and isinstance(p_.target, ast.Name)), None)
+                if loop_ is None:
+                    continue
+                v_ = loop_.target.id
+                rng_ = ctext(src_of(loop_.iter))
+                form1 = {ctext(f"{v_} * self.nbvar - 1"), ctext(f"self.nbvar * {v_} - 1")}
+                form0 = {ctext(f"{v_} * self.nbvar + self.nbvar - 1"), ctext(f"({v_} + 1) * self.nbvar - 1"), ctext(f"{v_} * self.nbvar + (self.nbvar - 1)"), ctext(f"self.nbvar * {v_} + self.nbvar - 1")}
+                if e_ in form1:
+                    verdict_ = (rng_ in (ctext("range(1, self.n_samples + 1)"), ctext("range(1, 1 + self.n_samples)")), mname_, st_, rng_, "1..n_samples")
+                elif e_ in form0:
+                    verdict_ = (rng_ in (ctext("range(self.n_samples)"), ctext("range(0, self.n_samples)")), mname_, st_, rng_, "0..n_samples-1")
+            if verdict_ is not None:
+                ok_, mname_, st_, rng_, want_ = verdict_
+                ck.verdict(ok_, "C09.a", None, f"{src_of(st_)} for {rng_}", "the constant feature is the last column of every row of sample_f, like numpy.hstack([X, ones])", f"the constant feature is written at the last column for {rng_} only, not for the rows {want_}: some rows keep 0 as their intercept feature, so the regression on a range holding them (and betas_) is not the least-squares fit with intercept", file=LINEAR, function=f"LinearRegressorCriterion.{mname_}", line=getattr(st_, "_orig_lineno", st_.lineno))
+            elif ones:
+                ck.unknown("C09.a", None, src_of(ones[0][1]), "the constant feature is written in a form whose column and row coverage this rule does not read", file=LINEAR, function=f"LinearRegressorCriterion.{ones[0][0]}", line=getattr(ones[0][1], "_orig_lineno", ones[0][1].lineno))
+            else:
+                ck.verdict(False, "C09.a", None, "self.sample_f[idx] = 1.0 after the feature loop", "", "the Cython criterion no longer writes the constant feature after the n_features columns: betas_ and _predict_reglin disagree on the intercept position", file=LINEAR, function="LinearRegressorCriterion.init_with_X", line=getattr(iw, "lineno", 0))
+        else:
+            ck.verdict(okc, "C09.a", None, "self.sample_f[idx] = 1.0 after the feature loop", "Cython criterion stores the constant feature last, like numpy.hstack([X, ones])", "the Cython criterion no longer writes the constant feature after the n_features columns: betas_ and _predict_reglin disagree on the intercept position", file=LINEAR, function="LinearRegressorCriterion.init_with_X", line=getattr(iw, "lineno", 0))
         nb = [src_of(s.value) for s in ast.walk(lm.method("LinearRegressorCriterion", "__cinit__")) if isinstance(s, ast.Assign) and src_of(s.targets[0]) == "self.nbvar"]
         ck.verdict(nb == ["self.n_features + 1"], "C09.a", None, f"self.nbvar = {nb}", "nbvar = n_features + 1 (features + intercept)", "nbvar is not n_features + 1", file=LINEAR, function="LinearRegressorCriterion.__cinit__", line=0)
     except ImportError as e:
@@ -281,6 +312,13 @@ def check_e(ck, repo):
             ck.unknown("C09.e", None, f"{drv}: rcond = {rc}", "the singular-value threshold is not a constant", line=ln, **where)
         else:
             ck.verdict(v <= 2.3e-16, "C09.e", None, f"{drv}: rcond = {rc}", "singular values are discarded at machine precision only: the solution is the least-squares one", f"rcond = {rc}: directions whose singular value is below {rc} times the largest are dropped, so on badly scaled leaves the coefficients and the impurity are those of a truncated fit, not of the least-squares fit", line=ln, **where)
+    # the impurity is recomputed from the data: residual of every row of the range
+    ms = cy_fi(lm, "LinearRegressorCriterion", "_mse")
+    reads = {n_.attr for n_ in ast.walk(ms.node) if isinstance(n_, ast.Attribute) and src_of(n_.value) == "self" and isinstance(n_.ctx, ast.Load)}
+    loops_ = [l_ for l_ in ast.walk(ms.node) if isinstance(l_, ast.For) and ctext(src_of(l_.iter)) in (ctext("range(start, end)"),)]
+    in_loop = {n_.attr for l_ in loops_ for n_ in ast.walk(l_) if isinstance(n_, ast.Attribute) and src_of(n_.value) == "self"}
+    need = {"sample_f", "sample_y", "sample_w"}
+    ck.verdict(need <= in_loop, "C09.e", None, f"_mse: loop over range(start, end) reads {sorted(in_loop & need)}", "the squared residuals are recomputed row by row from the features, the targets and the weights of the range", f"_mse no longer recomputes the residual of every row of (start, end) from sample_f, sample_y and sample_w (reads in such a loop: {sorted(in_loop & need)}): a by-product of the solver (e.g. the tail of the right-hand side after dgelss) is the residual norm only when the design of the range has full column rank, so the impurity of a range with a constant or duplicated feature is wrong", file=LINEAR, function="LinearRegressorCriterion._mse", line=ms.node.lineno)
     # right-hand side: weighted targets of the same rows
     rhs = [s for s in ast.walk(fi.node) if isinstance(s, ast.Assign) and isinstance(s.targets[0], ast.Subscript) and ex.text(s.targets[0].value, fi, s) in ("self.sample_pC", "pC")]
     okr = len(rhs) == 1 and src_of(rhs[0].targets[0].slice) == "i - start" and src_of(rhs[0].value) == "self.sample_wy[i]" and any(isinstance(p, ast.For) and src_of(p.iter) == "range(start, end)" and src_of(p.target) == "i" for p in _parents(rhs[0]))
@@ -580,7 +618,7 @@ def run(ck):
     ck.require_count("C09.a", 7, "co-index, mask, betas row, numbering x2, shape, hstack, dot, predict_leaves, Cython constant feature, nbvar")
     ck.require_count("C09.b", 6, "mean ranges x3, mse triples x3, left/right, update/reset/reverse_reset, improvement")
     ck.require_count("C09.d", 5, "fit and predict under 'mselin' and 'simple'; max_depth, min_samples_leaf")
-    ck.require_count("C09.e", 3, "driver dimensions, rcond, right-hand side")
+    ck.require_count("C09.e", 4, "driver dimensions, rcond, right-hand side, residual loop")
     ck.require_count("C09.c", 8, "zero-fill, fill, 8 reads with buffer/range checks, _mse, _mean")
 
 
